@@ -975,6 +975,45 @@ func newData(c *Ctx) func(string) string {
 			}
 			return "ok"
 		}
+		if f[0] == "pfwin" {
+			// the write-back window of a HyperLogLog, on a scratch store of its own (the sessions flush the cache around
+			// every write, see VerifRawHash): PFADD a; DEL a   against   PFADD b; <flush, as a snapshot or restart does>; DEL b.
+			// The same log must leave the same data (both keys gone, also after the next flush) and give the same replies.
+			kv := map[string]string{"eng": "pebble", "pol": "compact"}
+			for _, a := range f[1:] {
+				if i := strings.IndexByte(a, '='); i > 0 {
+					kv[a[:i]] = a[i+1:]
+				}
+			}
+			n, err := openNode(kv["eng"], kv["pol"])
+			if err != nil {
+				return "err:open"
+			}
+			defer n.close()
+			ts := dataBaseFuture
+			run := func(key string, flush bool) (del, cnt, cntLater int64) {
+				k := []byte(key)
+				n.kv.PFAdd(ts, k, []byte("e1"), []byte("e2"))
+				if flush {
+					n.kv.VerifFlushHLL()
+				}
+				del, _ = n.kv.DelKeys(k)
+				cnt, _ = n.kv.PFCount(ts+1, k)
+				n.kv.VerifFlushHLL()
+				cntLater, _ = n.kv.PFCount(ts+2, k)
+				return
+			}
+			da, ca, la := run("t:pfwin-a", false)
+			db, cb, lb := run("t:pfwin-b", true)
+			c.Note("pfwin")
+			if ca != cb || la != lb {
+				c.Violation("restart-dependent:hll-del", fmt.Sprintf("pfwin %s/%s: PFADD k e1 e2; DEL k; PFCOUNT k answers %d (and %d after the next flush of the cache) when the HyperLogLog was only in the write-back cache, %d (%d) when the cache had been flushed in between (snapshot, restart): the same log leaves different data", kv["eng"], kv["pol"], ca, la, cb, lb))
+			}
+			if da != db {
+				c.Violation("restart-dependent:hll-del-reply", fmt.Sprintf("pfwin %s/%s: DEL of a HyperLogLog that is only in the write-back cache answers %d, of a flushed one %d", kv["eng"], kv["pol"], da, db))
+			}
+			return fmt.Sprintf("del=%d/%d count=%d/%d later=%d/%d", da, db, ca, cb, la, lb)
+		}
 		if f[0] == "end" {
 			if s != nil {
 				s.close()
